@@ -173,7 +173,15 @@ func (fr *Frame) exec(ins ssa.Instruction) bool {
 			fr.reach = b.False()
 			return true
 		}
-		fr.vals[n] = Val{typ: n.Type(), iter: &MapIter{m: x, mt: mt}}
+		fr.cx.newN++
+		vloc := b.NewObj(fr.cx.newN)
+		ks := w.sortOf(mt.Key())
+		vh := w.heapName(SArray(ks, SBool))
+		fr.st.set(vh, b.Name(vh, b.Store(fr.st.heap(fr.cx, vh), vloc, b.ConstArray(SArray(ks, SBool), b.False()))))
+		it := &MapIter{m: x, mt: mt, vis: vloc, visHeap: vh}
+		fr.ranges = append(fr.ranges, it)
+		fr.rangeOf = append(fr.rangeOf, n)
+		fr.vals[n] = Val{typ: n.Type(), iter: it}
 	case *ssa.Next:
 		fr.next(n)
 	case *ssa.Call:
@@ -286,6 +294,9 @@ func (fr *Frame) zeroGhosts(loc *Term, t types.Type) {
 }
 
 func isStructType(t types.Type) bool {
+	if isPageSet(t) {
+		return false
+	}
 	if _, ok := opaqueLE(t); ok {
 		return false
 	}
@@ -620,6 +631,20 @@ func (fr *Frame) next(n *ssa.Next) {
 	ml := b.Select(fr.st.heap(fr.cx, lnH), it.m.t)
 	notNil := b.Not(b.IsNil(it.m.t))
 	fr.assume(b.Implies(ok, b.And(notNil, b.Select(md, k))))
+	if it.vis != nil {
+		vh := fr.st.heap(fr.cx, it.visHeap)
+		vis := b.Select(vh, it.vis)
+		// a produced key is new; when the iteration ends every present key has been produced
+		fr.assume(b.Implies(ok, b.Not(b.Select(vis, k))))
+		kn := fmt.Sprintf("k?%d", fr.cx.nextBound())
+		kv := b.BVar(kn, ks)
+		if !rangeBodyInserts(n) {
+			fr.assume(b.Implies(b.And(b.Not(ok), notNil), b.Forall([]BoundVar{{kn, ks}}, b.Implies(b.Select(md, kv), b.Select(vis, kv)), b.Select(md, kv))))
+			fr.cx.trust("map iteration produces every key present at its end exactly once (no insertion into the ranged map through an alias)")
+		}
+		nv := b.Ite(ok, b.Store(vis, k, b.True()), vis)
+		fr.st.set(it.visHeap, b.Name(it.visHeap, b.Store(vh, it.vis, nv)))
+	}
 	// an empty or nil map yields nothing
 	fr.assume(b.Implies(b.Or(b.Not(notNil), b.Eq(ml, b.BV(0, 64))), b.Not(ok)))
 	var v *Term
@@ -634,6 +659,41 @@ func (fr *Frame) next(n *ssa.Next) {
 		{t: k, typ: mt.Key()},
 		{t: b.Name("it_v", v), typ: mt.Elem()},
 	}}
+}
+
+// rangeBodyInserts: does the loop driven by this Next insert into the ranged map (syntactically)?
+func rangeBodyInserts(n *ssa.Next) bool {
+	rg, ok := n.Iter.(*ssa.Range)
+	if !ok {
+		return true
+	}
+	for _, blk := range n.Parent().Blocks {
+		for _, ins := range blk.Instrs {
+			if mu, ok := ins.(*ssa.MapUpdate); ok {
+				if mu.Map == rg.X {
+					return true
+				}
+				if l1, ok1 := mu.Map.(*ssa.UnOp); ok1 {
+					if l2, ok2 := rg.X.(*ssa.UnOp); ok2 && sameAddr(l1.X, l2.X) {
+						return true
+					}
+				}
+			}
+		}
+	}
+	return false
+}
+
+func sameAddr(a, b ssa.Value) bool {
+	if a == b {
+		return true
+	}
+	fa, ok1 := a.(*ssa.FieldAddr)
+	fb, ok2 := b.(*ssa.FieldAddr)
+	if ok1 && ok2 {
+		return fa.Field == fb.Field && sameAddr(fa.X, fb.X)
+	}
+	return false
 }
 
 func describeCallee(c *ssa.CallCommon) string {
